@@ -100,7 +100,10 @@ PROPS = {
         assumptions=["SQLite: insert-or-ignore, immediate foreign keys, explicit transactions; an unordered SELECT returns rows in insertion (rowid) order",
                      "partial: histories in which a transaction id occurs in two stored blocks are the known finding D2"]),
     "C10": dict(
-        lean_core=["Props.GenTie.Params", "Props.C09", "Props.C10", "Props.C10Follow", "Props.C10Walk"], lean_code=["Props.GenTie.Heights"], gen_funcs=["get_recent_block_heights"], harness="c10",
+        lean_core=["Props.GenTie.Params", "Props.C09", "Props.C10", "Props.C10Follow", "Props.C10Walk"], lean_code=["Props.GenTie.Heights", "Props.GenTie.GetBlocksRule"],
+        gen_funcs=["get_recent_block_heights", "is_time_to_connect", "get_blocks_range"], harness="c10",
+        code_deps={"Props.GenTie.Heights": ["get_recent_block_heights", "is_time_to_connect"],
+                   "Props.GenTie.GetBlocksRule": ["get_blocks_range"]},
         assumptions=["partial: convergence under every interleaving is a liveness statement that is validated by execution on the real code (seeded schedules), not proved",
                      "all nodes of a run share one block store file (the store is a module-level singleton)",
                      "thread interleavings of the real NetworkingThread are not exhibited"]),
